@@ -535,6 +535,29 @@ class C02(PropCheck):
             fresh = blob(BatchHandler(mb, ComputationContext(batch_size=bs, seed=seed), output_names=outs).compute(bi))
             if got != fresh:
                 problems.append('batch %d on a used context differs from a fresh context' % bi)
+        # wave 4: submitted batches with overridden (supplied) nodes on the SAME used handler, as SMC / BOLFI / pool reuse submit
+        # them: a batch is a function of (model, seed, batch index, supplied values), not of the batches the context ran before
+        import random as _random
+        import numpy as _np
+        hr = _random.Random(seed)
+        cands = sorted(k for k in bh.compiled_net.nodes if 'operation' in bh.compiled_net.nodes[k] and not k.startswith('_'))
+        if cands:
+            sets = [{}] + [{k: _np.full(bs, 0.25 + 0.5 * j)} for j, k in enumerate(hr.sample(cands, min(4, len(cands))))] \
+                + [{k: _np.full(bs, 0.25 + 0.5 * j) for j, k in enumerate(cands) if hr.random() < 0.4}] + [{}]
+            self.bump('override history batches=%d' % len(sets))
+            for i, sup in enumerate(sets):
+                fh = BatchHandler(mb, ComputationContext(batch_size=bs, seed=seed), output_names=outs)
+                fh._next_batch_index = bh._next_batch_index = 10 + i
+                try:
+                    fh.submit(batch=dict(sup))
+                    fresh = blob(fh.wait_next()[0])
+                except Exception:
+                    self.bump('override history: supplied values not accepted by the numeric twin')
+                    continue
+                bh.submit(batch=dict(sup))
+                if blob(bh.wait_next()[0]) != fresh:
+                    problems.append('submitted batch %d with supplied %s after supplied sets %s on a used context differs from a fresh context'
+                                    % (10 + i, sorted(sup), [sorted(x) for x in sets[:i]]))
         if len(set(case['batch_indices'])) > 1:
             a = blob(bh.compute(case['batch_indices'][0]))
             bdiff = [bi for bi in case['batch_indices'] if bi != case['batch_indices'][0]][0]
